@@ -87,6 +87,32 @@ theorem C04_fallback_types_are_prototype (s : Site) (t : List Nat) (h : s.typeAr
   simp only [this, Bool.not_false, Bool.or_true, if_true]
   exact fromTyAndCursor_types t []
 
+theorem zipLongest_names (cs : List Param) (ts : List Nat) (h : cs.length = ts.length) :
+    (zipLongest cs ts).map (·.1) = cs.map (·.1) := by
+  induction cs generalizing ts with
+  | nil => cases ts with
+    | nil => rfl
+    | cons t ts => simp at h
+  | cons c cs ih =>
+    cases ts with
+    | nil => simp at h
+    | cons t ts =>
+      obtain ⟨n, x⟩ := c
+      simp only [zipLongest, List.map_cons, List.cons.injEq, true_and]
+      exact ih ts (by simpa using h)
+
+/-- **names**: when the declaration's parameters agree in number with the prototype (the level the cursor declares),
+the parameter names of the declaration are kept, in order — the guard drops names only where they would be
+another level's -/
+theorem C04_decl_names_kept (s : Site) (t : List Nat) (h : s.typeArgs = some t) (hd : s.declLike = true)
+    (hl : s.cursorArgs.length = t.length) : (args true s).map (·.1) = s.cursorArgs.map (·.1) := by
+  unfold args
+  rw [if_pos hd, h]
+  unfold fromTyAndCursor
+  have : (t.length != s.cursorArgs.length) = false := by simp [hl]
+  simp only [Bool.true_and, this, Bool.false_eq_true, if_false, Option.getD_some]
+  exact zipLongest_names s.cursorArgs t hl
+
 /-- the returned pointer of `long (*get(int, int, int))(char)` (types: `int` = 1, `char` = 2): parsed
 with the cursor of `get`, prototype `(char)` -/
 def returnedPointerSite : Site :=
